@@ -58,7 +58,19 @@ Definition ldrop_range (v lo hi : Z) (es : list (skey * bytes)) : list (skey * b
 Fixpoint push_seqs (seq delta : Z) (vs : list bytes) : list (Z * bytes) :=
   match vs with [] => [] | x :: r => (seq, x) :: push_seqs (seq + delta) delta r end.
 
-(* lDelete *)
+(* lDelete: meta deleted; under wait_compact with a generation below the clearing timestamp the element
+   keys are left to the compaction filter; otherwise the element keys head..tail go: with one
+   DeleteRange [key head, key tail) when the list has more than RangeDeleteNum elements, key by key over
+   the closed range [key head, key tail] otherwise; the key of tail is deleted afterwards in both cases
+   ("delete range is [left, right), so we need delete end") *)
+Definition lin_range (v lo hi : Z) (closed : bool) (k : skey) : bool :=
+  (fst k =? v) && (lo <=? snd k) && (if closed then snd k <=? hi else snd k <? hi).
+Definition ldelete_range (v lo hi : Z) (es : list (skey * bytes)) : list (skey * bytes) :=
+  filter (fun e => negb (lin_range v lo hi false (fst e))) es.
+Definition ldelete_each (v lo hi : Z) (es : list (skey * bytes)) : list (skey * bytes) :=
+  fold_left (fun acc k => adel skey_eqb k acc) (map fst (filter (fun e => lin_range v lo hi true (fst e)) es)) es.
+Definition lclear_elems (size v head tail : Z) (es : list (skey * bytes)) : list (skey * bytes) :=
+  ldel v tail (if range_delete_num <? size then ldelete_range v head tail es else ldelete_each v head tail es).
 Definition ldelete (lazy : bool) (l : lcoll) : lcoll * Z :=
   match l_meta l with
   | None => (l, 0)
@@ -66,7 +78,7 @@ Definition ldelete (lazy : bool) (l : lcoll) : lcoll * Z :=
       let size := l_size l in
       if size =? 0 then (l, 0)
       else ({| l_meta := None;
-               l_elems := if lazy then l_elems l else ldrop_range (lm_ver m) (lm_head m) (lm_tail m) (l_elems l) |}, size)
+               l_elems := if lazy then l_elems l else lclear_elems size (lm_ver m) (lm_head m) (lm_tail m) (l_elems l) |}, size)
   end.
 
 Definition lstep (compact : bool) (ts : Z) (key : bytes) (c : lcmd) (l : lcoll) : lcoll * reply :=
